@@ -155,8 +155,8 @@ Proof.
     assert (Hle : c <= c0 /\ c0 <= c').
     { destruct (L_stmts_all pv sv bound u g k (rev init_rev) ctx c cs c0 sc sc1 l Hmi Hfi) as (_ & _ & (_ & H1 & _)).
       split; [exact H1|]. destruct last; try (destruct (L_stmt_all pv sv bound u g k' _ ctx c0 a0 c' sc1 sc2 l Hm0 Hflast) as (_ & _ & (_ & H2 & _)); exact H2).
-      destruct k' as [|k'']; [discriminate|]. rewrite frag_stmt_sexpr in Hflast. destruct (frag_expr pv sv bound k'' sc1 value) eqn:Hfe; [|discriminate Hflast].
-      mon Hm0. destruct a as [cv rv]. destruct (L_expr_all pv sv bound u g k'' value ctx c0 cv rv c' sc1 l Hm Hfe) as (_ & _ & (_ & H2 & _) & _). exact H2. }
+      destruct k' as [|k'']; [discriminate|]. rewrite frag_stmt_sexpr in Hflast. destruct (frag_expr pv k'' sc1 value) eqn:Hfe; [|discriminate Hflast].
+      mon Hm0. destruct a as [cv rv]. destruct (L_expr_all pv u g k'' value ctx c0 cv rv c' sc1 l Hm Hfe) as (_ & _ & (_ & H2 & _) & _). exact H2. }
     destruct Hle as [Hc0 Hc0'].
     assert (Hctxi : ctx_ok l F E c c0) by (eapply ctx_sub; [exact Hctx | lia | lia]).
     assert (Hgen : SyltSem.bind (SyltSem.exec_block n e (rev init_rev ++ [last])) (fun _ : senv => SyltSem.ret (SV Values.VLuaNil)) st = (r, st') ->
@@ -182,12 +182,12 @@ Proof.
     (* the last statement is an expression: its value is returned *)
     clear Hgen.
     destruct k' as [|k'']; [discriminate|]. rewrite frag_stmt_sexpr in Hflast.
-    destruct (frag_expr pv sv bound k'' sc1 value) eqn:Hfe; [|discriminate Hflast].
+    destruct (frag_expr pv k'' sc1 value) eqn:Hfe; [|discriminate Hflast].
     mon Hm0. destruct a as [code_v rv]. cbn [fst snd] in *.
     apply ucovers_app in Hul as [Huv Hur].
     assert (Hcrv : 1 <= count_of u rv) by (eapply Hur; [left; reflexivity | left; reflexivity]).
     assert (Hrest : forall l0, exists b2 l2, cshape u l0 code_v b2 l2 c0 c' /\ c0 <= rv /\ rv < c')
-      by (intros l0; apply (L_expr_all pv sv bound u g k'' value ctx c0 code_v rv c' sc1 l0 Hm Hfe)).
+      by (intros l0; apply (L_expr_all pv u g k'' value ctx c0 code_v rv c' sc1 l0 Hm Hfe)).
     assert (Hret : forall l0, cshape u l0 [IReturn rv] (fst (agen_one u l0 (IReturn rv))) l0 c' c')
       by (intros l0; apply cshape_plain; [lia | reflexivity | reflexivity | reflexivity]).
     unfold SyltSem.bind at 1 in Hev.
@@ -206,13 +206,13 @@ Proof.
     destruct (SyltSem.eval n e1 value st1) as [[v_|o|cc] st2] eqn:He2.
     3: { inversion Hev; subst. destruct Hna. }
     2: { inversion Hev; subst.
-         destruct (P_eval_all pv sv bound u n g k'' value ctx c0 code_v rv c' e1 st1 _ st' sc1 l1 E1 stL1 F1 He2 Hm Hfe Huv Hctx1 Hrel1 Hint)
+         destruct (P_eval_all pv bound u n g k'' value ctx c0 code_v rv c' e1 st1 _ st' sc1 l1 E1 stL1 F1 He2 Hm Hfe Huv Hctx1 Hrel1 Hint)
            as (b2 & l2 & Hs2 & _ & _ & Hp2). apply stop_of_exit in Hp2 as (ev & stL2 & Hx2 & Htr).
          eexists _, _. split; [eapply cshape_app; [exact Hs1|]; eapply cshape_app; [exact Hs2 | apply Hret]|].
          exists ev, stL2. split; [|exact Htr].
          eapply ExecS_app; [exact Hx1|]. apply ExecS_app_stop; [exact Hx2 | intros []]. }
     inversion Hev; subst r st'. clear Hev.
-    destruct (P_eval_all pv sv bound u n g k'' value ctx c0 code_v rv c' e1 st1 _ st2 sc1 l1 E1 stL1 F1 He2 Hm Hfe Huv Hctx1 Hrel1 I)
+    destruct (P_eval_all pv bound u n g k'' value ctx c0 code_v rv c' e1 st1 _ st2 sc1 l1 E1 stL1 F1 He2 Hm Hfe Huv Hctx1 Hrel1 I)
       as (b2 & l2 & Hs2 & _ & _ & E2 & stL2 & F2 & Hok2 & Hd2). specialize (Hd2 Hcrv).
     pose proof Hok2 as (Hx2 & _ & Hrel2 & _).
     eexists _, _. split; [eapply cshape_app; [exact Hs1|]; eapply cshape_app; [exact Hs2 | apply Hret]|].
@@ -249,9 +249,9 @@ Proof.
     destruct (L_stmts_all pv sv bound u g k (rev init_rev) ctx c cs c0 sc sc1 l Hmi Hfi) as (b1 & l1 & Hs1).
     destruct last; try (destruct (L_stmt_all pv sv bound u g k' _ ctx c0 a0 c' sc1 sc2 l1 Hm0 Hflast) as (b2 & l2 & Hs2);
                         eexists _, _; eapply cshape_app; eassumption).
-    destruct k' as [|k'']; [discriminate|]. rewrite frag_stmt_sexpr in Hflast. destruct (frag_expr pv sv bound k'' sc1 value) eqn:Hfe; [|discriminate Hflast].
+    destruct k' as [|k'']; [discriminate|]. rewrite frag_stmt_sexpr in Hflast. destruct (frag_expr pv k'' sc1 value) eqn:Hfe; [|discriminate Hflast].
     mon Hm0. destruct a as [cv rv]. cbn [fst snd] in *.
-    destruct (L_expr_all pv sv bound u g k'' value ctx c0 cv rv c' sc1 l1 Hm Hfe) as (b2 & l2 & Hs2 & _).
+    destruct (L_expr_all pv u g k'' value ctx c0 cv rv c' sc1 l1 Hm Hfe) as (b2 & l2 & Hs2 & _).
     eexists _, _. eapply cshape_app; [exact Hs1|]. eapply cshape_app; [exact Hs2|].
     apply (cshape_plain u l2 (IReturn rv) c' c'); [lia | reflexivity | reflexivity | reflexivity].
 Qed.
@@ -317,7 +317,7 @@ Proof.
 Qed.
 
 Definition NA_eval (n : nat) : Prop :=
-  forall k sc e x st r st', frag_expr pv sv bound k sc x = true -> SyltSem.eval n e x st = (r, st') -> noab r.
+  forall k sc e x st r st', frag_expr pv k sc x = true -> SyltSem.eval n e x st = (r, st') -> noab r.
 
 Lemma NA_eval_all n : NA_eval n.
 Proof.
@@ -379,7 +379,7 @@ Proof.
         eapply noab_bind; [exact H2 | intros ? ? Hn; inversion Hn; subst; exact I |]. intros ? st3 _ H3. inversion H3; subst; exact I.
       * rewrite frag_stmt_block in Hf. destruct (frag_stmts pv sv bound k sc statements) eqn:Hs; [|discriminate Hf].
         eapply noab_bind; [exact Hev | intros; eapply IH2; eassumption |]. intros ? st1 _ H1. inversion H1; subst; exact I.
-      * rewrite frag_stmt_sexpr in Hf. destruct (frag_expr pv sv bound k sc value) eqn:Hfe; [|discriminate Hf].
+      * rewrite frag_stmt_sexpr in Hf. destruct (frag_expr pv k sc value) eqn:Hfe; [|discriminate Hf].
         eapply noab_bind; [exact Hev | intros; eapply NA_eval_all; eassumption |]. intros ? st1 _ H1. inversion H1; subst; exact I.
     + intros k sc sc' e ss st r st' Hf Hev. destruct ss as [|s ss]; cbn [SyltSem.exec_block] in Hev; [inversion Hev; subst; exact I|].
       destruct k as [|k]; [discriminate|]. rewrite frag_stmts_cons in Hf.
@@ -400,7 +400,7 @@ Proof.
   destruct last; try (apply Hdefault; exact Hev).
   rewrite Hbody in Hf. destruct (frag_stmts_app pv sv bound _ _ _ _ _ Hf) as (sc1 & k' & Hfi & Hfl).
   destruct k' as [|k']; [discriminate|]. rewrite frag_stmts_cons in Hfl.
-  destruct k' as [|k'']; [discriminate|]. rewrite frag_stmt_sexpr in Hfl. destruct (frag_expr pv sv bound k'' sc1 value) eqn:Hfe; [|discriminate Hfl].
+  destruct k' as [|k'']; [discriminate|]. rewrite frag_stmt_sexpr in Hfl. destruct (frag_expr pv k'' sc1 value) eqn:Hfe; [|discriminate Hfl].
   eapply noab_bind; [exact Hev | |].
   - intros a0 st1 H. exact (proj2 (NA_stmt_all n) k sc sc1 e _ st a0 st1 Hfi H).
   - intros e1 st1 _ H1. cbv beta in H1. exact (NA_eval_all n k'' sc1 e1 value st1 r st' Hfe H1).
